@@ -29,7 +29,7 @@ class Gen:
         self.list_len = None  # int -> forced list length for non-byte lists
         self.buf_len = None  # int -> forced byte-buffer length
         self.arms = []  # union arms taken during the last build
-        self.budget = 6000  # soft cap on bytes per value
+        self.max_buf = 65535  # cap on generated buffer lengths (lowered while a structured TPM2B would overflow its size)
 
     # ---- primitives ------------------------------------------------------------------------
     def desc(self, tname):
@@ -83,7 +83,7 @@ class Gen:
         if elem in ("BYTE", "UINT8"):
             if self.buf_len is not None:
                 n = self.buf_len
-            elif self.big and self.rng.random() < 0.1:
+            elif self.big and self.rng.random() < 0.02:
                 n = self.rng.choice(BIG_BUF)
             else:
                 n = self.rng.choice(BUF_SIZES)
@@ -94,6 +94,8 @@ class Gen:
                 n = 17
             else:
                 n = self.rng.choice(SMALL_LIST)
+        if elem in ("BYTE", "UINT8"):
+            n = min(n, self.max_buf)
         return min(n, maxv)
 
     def struct(self, tname, d, path, enc=False):
@@ -140,7 +142,15 @@ class Gen:
         elif tname in self.empty2b or (self.rng.random() < 0.04 and self.force.get("allow_empty", True)):
             body, bev, size = b"", [(bp, bt, None)], 0
         else:
-            body, bev = self.build(bt, bp)
+            maxv = max(hi for lo, hi in self.T[st]["valid"]) - 1
+            saved = self.max_buf
+            for _attempt in range(8):
+                body, bev = self.build(bt, bp)
+                if len(body) <= maxv:
+                    break
+                # the content does not fit the size field: try again with shorter buffers inside
+                self.max_buf = max(4, self.max_buf // 16)
+            self.max_buf = saved
             size = len(body)
             if size == 0:
                 bev = [(bp, bt, None)]  # a structure of zero bytes cannot be told from an absent one
